@@ -60,6 +60,10 @@ def snapshot(b: core.Built):
             walk(st["kids"][i - 1])
 
     walk(st["top"])
+    keep = set(order)
+    gone = [b.nodes[i] for i in range(1, len(b.nodes)) if i not in keep and b.nodes[i] is not None]
+    if gone:
+        b.grave = (b.grave + gone)[-8:]   # the caller still holds these handles ("stale" ops use them)
     b.nodes = [None] + [b.nodes[i] for i in order]
     return core.project(b)["st"]
 
